@@ -20,8 +20,26 @@ logger = logging.getLogger(__name__)  # Added for logging
 class ClientVisitor:
     """Visitor for rendering the Python API client from IRSpec."""
 
+    # Names that APIClient, APIClientProtocol and MockAPIClient define themselves: instance attributes, methods and
+    # the receiver of MockAPIClient.__init__. A tag client is neither exposed (property `<name>`, constructor keyword
+    # of the mock) nor stored (attribute `_<name>`) under one of them.
+    _OWN_MEMBER_NAMES = frozenset(
+        {"config", "transport", "_base_url", "request", "close", "__aenter__", "__aexit__", "__init__", "self"}
+    )
+
     def __init__(self) -> None:
         pass
+
+    @classmethod
+    def _tag_attr_name(cls, module_name: str) -> str:
+        """Name under which the client of a tag is exposed on APIClient, APIClientProtocol and MockAPIClient.
+
+        It is the module name of the tag; a name that would collide with one of the client's own members
+        (as property `<name>` or as private attribute `_<name>`) gets a trailing underscore, like reserved names
+        in NameSanitizer."""
+        if module_name in cls._OWN_MEMBER_NAMES or f"_{module_name}" in cls._OWN_MEMBER_NAMES:
+            return module_name + "_"
+        return module_name
 
     def visit(self, spec: IRSpec, context: RenderContext) -> str:
         # Step 1: Process tags and build tag_tuples
@@ -134,7 +152,7 @@ class ClientVisitor:
             ("transport", "HttpTransport | None", "Custom HTTP transport (optional)."),
         ]
         for tag, class_name, module_name in tag_tuples:
-            args.append((module_name, class_name, f"Client for '{tag}' endpoints."))
+            args.append((self._tag_attr_name(module_name), class_name, f"Client for '{tag}' endpoints."))
         doc_block = DocumentationBlock(
             summary=summary,
             args=cast(list[tuple[str, str, str] | tuple[str, str]], args),
@@ -160,7 +178,7 @@ class ClientVisitor:
         # Initialize private fields for each tag client
         for tag, class_name, module_name in tag_tuples:
             context.add_typing_imports_for_type(f"{class_name} | None")
-            writer.write_line(f"self._{module_name}: {class_name} | None = None")
+            writer.write_line(f"self._{self._tag_attr_name(module_name)}: {class_name} | None = None")
         writer.dedent()
         writer.write_line("")
         # @property for each tag client
@@ -179,14 +197,15 @@ class ClientVisitor:
                 logical_module_for_add_import_prop = f"{current_gen_pkg_name_prop}.endpoints.{module_name}"
                 context.add_import(logical_module_for_add_import_prop, class_name)
 
-            writer.write_line(f"def {module_name}(self) -> {class_name}:")
+            attr_name = self._tag_attr_name(module_name)
+            writer.write_line(f"def {attr_name}(self) -> {class_name}:")
             writer.indent()
             writer.write_line(f'"""Client for \'{tag}\' endpoints."""')
-            writer.write_line(f"if self._{module_name} is None:")
+            writer.write_line(f"if self._{attr_name} is None:")
             writer.indent()
-            writer.write_line(f"self._{module_name} = {class_name}(self.transport, self._base_url)")
+            writer.write_line(f"self._{attr_name} = {class_name}(self.transport, self._base_url)")
             writer.dedent()
-            writer.write_line(f"return self._{module_name}")
+            writer.write_line(f"return self._{attr_name}")
             writer.dedent()
             writer.write_line("")
         # request method
@@ -290,7 +309,7 @@ class ClientVisitor:
             # Use forward reference for tag client protocol
             protocol_name = f"{class_name}Protocol"
             writer.write_line("@property")
-            writer.write_line(f"def {module_name}(self) -> '{protocol_name}':")
+            writer.write_line(f"def {self._tag_attr_name(module_name)}(self) -> '{protocol_name}':")
             writer.indent()
             writer.write_line("...")
             writer.dedent()
@@ -391,7 +410,7 @@ class ClientVisitor:
             writer.write_line("        async def method_name(self, ...) -> ReturnType:")
             writer.write_line("            return test_data")
             writer.write_line("")
-            writer.write_line(f"    client = MockAPIClient({module_name}=My{class_name}Mock())")
+            writer.write_line(f"    client = MockAPIClient({self._tag_attr_name(module_name)}=My{class_name}Mock())")
             break
         writer.write_line('"""')
         writer.write_line("")
@@ -402,7 +421,7 @@ class ClientVisitor:
         writer.write_line("self,")
         for tag, class_name, module_name in tag_tuples:
             protocol_name = f"{class_name}Protocol"
-            writer.write_line(f'{module_name}: "{protocol_name} | None" = None,')
+            writer.write_line(f'{self._tag_attr_name(module_name)}: "{protocol_name} | None" = None,')
         writer.dedent()
         writer.write_line(") -> None:")
         writer.indent()
@@ -410,9 +429,8 @@ class ClientVisitor:
         # Initialize tag clients
         for tag, class_name, module_name in tag_tuples:
             mock_class_name = f"Mock{class_name}"
-            writer.write_line(
-                f"self._{module_name} = {module_name} if {module_name} is not None else {mock_class_name}()"
-            )
+            attr_name = self._tag_attr_name(module_name)
+            writer.write_line(f"self._{attr_name} = {attr_name} if {attr_name} is not None else {mock_class_name}()")
         if not tag_tuples:
             # A document without operations has no tag clients: the constructor still needs a body
             writer.write_line("pass")
@@ -423,9 +441,10 @@ class ClientVisitor:
         for tag, class_name, module_name in tag_tuples:
             protocol_name = f"{class_name}Protocol"
             writer.write_line("@property")
-            writer.write_line(f'def {module_name}(self) -> "{protocol_name}":')
+            attr_name = self._tag_attr_name(module_name)
+            writer.write_line(f'def {attr_name}(self) -> "{protocol_name}":')
             writer.indent()
-            writer.write_line(f"return self._{module_name}")
+            writer.write_line(f"return self._{attr_name}")
             writer.dedent()
             writer.write_line("")
 
